@@ -36,6 +36,7 @@ const (
 	prWidePair
 	prScatter
 	prPreParsed
+	prBadAccepted
 	nRProbes
 )
 
@@ -44,7 +45,7 @@ var rProbeNames = []string{"overflow_eviction", "timeout_eviction", "complete_ev
 	"eoe_completed_buffered_event", "close_flushed_events", "maintain_flushed_events", "push_after_close",
 	"overflow_eviction_of_incomplete_head", "window_edge_offset_used", "call_at_exact_expiry_instant",
 	"late_arrival_after_eviction", "several_evictions_in_one_call", "two_sequence_numbers_more_than_2^24_apart",
-	"history_dealt_onto_3_to_5_far_apart_sequence_clusters", "message_parsed_before_the_first_call_pushed_later"}
+	"history_dealt_onto_3_to_5_far_apart_sequence_clusters", "message_parsed_before_the_first_call_pushed_later", "record_meant_as_unparsable_was_accepted_run_not_judged"}
 
 // callback records of one call
 type rGroup struct {
@@ -234,6 +235,7 @@ func ExecRPlan(p *RPlan, trace bool) *core.Result {
 			}
 		}
 	}
+	outOfModel := false
 	for i, op := range p.Ops {
 		now := int64(time.Since(start))
 		cbs = cbs[:0]
@@ -277,7 +279,11 @@ func ExecRPlan(p *RPlan, trace bool) *core.Result {
 					fmt.Sprintf("node=host(1) audit(1500000000.000:%d): id=%d", sq, i)}[int(op.Typ)%nBadRaw]
 				callErr = ra.Push(auparse.AuditMessageType(tSYSCALL), []byte(bad))
 				if callErr == nil {
-					viol("C01", "bad-push-accepted", "push", "Push(%q) returned nil", bad)
+					// Which texts are parsable is not this engine's business (the
+					// properties judged here are about what was pushed): a record
+					// the library accepts although this harness meant it as
+					// unparsable has a sequence number the model does not know.
+					outOfModel = true
 				}
 			case opSleep:
 				time.Sleep(time.Duration(op.D))
@@ -298,6 +304,11 @@ func ExecRPlan(p *RPlan, trace bool) *core.Result {
 				viol(prop, "panic", ropNames[op.K], "%s panicked: %s", ropNames[op.K], panicked)
 			}
 			break
+		}
+		if outOfModel {
+			res.Probes[prBadAccepted]++
+			res.TraceHash = h
+			return res
 		}
 		if op.K == opSleep {
 			continue
